@@ -77,7 +77,7 @@ func Quote(s string, lang LangVariant) (string, error) {
 		case '\x00':
 			return "", &QuoteError{ByteOffset: offs, Message: quoteErrNull}
 		}
-		if r == utf8.RuneError || !unicode.IsPrint(r) {
+		if (r == utf8.RuneError && size == 1) || !unicode.IsPrint(r) {
 			if lang.in(LangPOSIX) {
 				return "", &QuoteError{ByteOffset: offs, Message: quoteErrPOSIX}
 			}
@@ -86,7 +86,7 @@ func Quote(s string, lang LangVariant) (string, error) {
 		rem = rem[size:]
 		offs += size
 	}
-	if !shellChars && !nonPrintable && !IsKeyword(s) {
+	if !shellChars && !nonPrintable && !IsKeyword(s) && !isClauseWord(s) {
 		// Nothing to quote; avoid allocating.
 		return s, nil
 	}
@@ -108,7 +108,7 @@ func Quote(s string, lang LangVariant) (string, error) {
 			case r == '\'', r == '\\':
 				b.WriteByte('\\')
 				b.WriteRune(r)
-			case unicode.IsPrint(r) && r != utf8.RuneError:
+			case unicode.IsPrint(r) && !(r == utf8.RuneError && size == 1):
 				if lastRequoteIfHex && isHex(r) {
 					b.WriteString("'$'")
 				}
@@ -176,6 +176,17 @@ func Quote(s string, lang LangVariant) (string, error) {
 	}
 	b.WriteByte('"')
 	return b.String(), nil
+}
+
+// isClauseWord reports whether the parser gives the bare word a syntax of its
+// own at the start of a command in some variant (DeclClause, LetClause,
+// TestDecl), so that it must be quoted to be an ordinary word.
+func isClauseWord(s string) bool {
+	switch s {
+	case "let", "declare", "local", "export", "readonly", "typeset", "nameref", "@test":
+		return true
+	}
+	return false
 }
 
 func isHex(r rune) bool {
